@@ -41,6 +41,7 @@ class Ctx:
         self.divisors = []  # symbolic divisors seen (definedness obligations)
         self.ack_div = False  # Ackermannise division by symbolic divisors
         self.quots = []  # (numerator, denominator, result var) when ack_div
+        self.defs = {}  # name of an Ackermannised sqrt result -> its defining fact (added to every query that mentions the name)
 
     def const(self, name, *facts_fn):
         if name not in self.consts:
